@@ -184,3 +184,150 @@ func H_C04_sig(n int) {
 	vAssert("sig-id-or-error", e != ErrHdrOk || id&^HdrSigIdCMask < 8)
 	vReach("end")
 }
+
+// H_C04_api: the small exported accessors / resets of every parser object
+// after an arbitrary (possibly failed or suspended) parse.
+func H_C04_api(kind, n int) {
+	buf := vBytes(n)
+	switch kind {
+	case 0:
+		var fl PFLine
+		ParseFLine(buf, 0, &fl)
+		_ = fl.Empty() || fl.Parsed() || fl.Pending() || fl.Request()
+		fl.Reset()
+		vAssert("reset-empty", fl.Empty())
+	case 1:
+		var cs PCSeqBody
+		ParseCSeqVal(buf, 0, &cs)
+		_ = cs.Empty() || cs.Parsed() || cs.Pending()
+		cs.Reset()
+		var ci PCallIDBody
+		ParseCallIDVal(buf, 0, &ci)
+		_ = ci.Empty() || ci.Parsed() || ci.Pending()
+		ci.Reset()
+		var u PUIntBody
+		ParseExpiresVal(buf, 0, &u)
+		_ = u.Empty() || u.Parsed() || u.Pending()
+		u.Reset()
+		vAssert("reset-empty", cs.Empty() && ci.Empty() && u.Empty())
+	case 2:
+		var pf PFromBody
+		ParseFromVal(buf, 0, &pf)
+		_ = pf.Empty() || pf.Parsed() || pf.Pending()
+		pf.Reset()
+		vAssert("reset-empty", pf.Empty())
+	case 3:
+		var c PContacts
+		var cb [1]PFromBody
+		c.Init(cb[:])
+		ParseAllContactValues(buf, 0, &c)
+		vb := c.Empty()
+		vb = c.Parsed() != vb
+		vb = c.More() != vb
+		_ = vb
+		for i := -1; i <= c.N; i++ {
+			if g := c.GetContact(i); g != nil {
+				_ = g.Parsed()
+			}
+		}
+		vAssert("vno-bounded", c.VNo() <= 1)
+		c.Reset()
+		vAssert("reset-empty", c.Empty())
+	case 4:
+		var c PPAIs
+		c.Init()
+		ParseAllPAIValues(buf, 0, &c)
+		vb := c.Empty()
+		vb = c.Parsed() != vb
+		vb = c.More() != vb
+		_ = vb
+		for i := -1; i <= c.N; i++ {
+			if g := c.GetPAI(i); g != nil {
+				_ = g.Parsed()
+			}
+		}
+		vAssert("vno-bounded", c.VNo() <= 2)
+		c.Reset()
+		vAssert("reset-empty", c.Empty())
+	case 5:
+		var hl HdrLst
+		var hb [1]Hdr
+		hl.Hdrs = hb[:]
+		var pv PHdrVals
+		pv.Init(nil)
+		ParseHeaders(buf, 0, &hl, &pv)
+		for t := HdrNone; t <= HdrOther+1; t++ {
+			if h := hl.GetHdr(t); h != nil {
+				_ = h.Missing()
+			}
+			_ = t.String()
+			_ = hl.PFlags.Test(t) || hl.PFlags.Any(t, HdrFrom) || hl.PFlags.AllSet(t, HdrTo)
+		}
+		var h2 Hdr
+		h2.Type = HdrT(vU16())
+		hl.SetHdr(&h2)
+		_, _ = pv.MaxExpires()
+		_ = pv.GetFrom() != nil && pv.GetTo() != nil && pv.GetCallID() != nil && pv.GetCSeq() != nil && pv.GetCLen() != nil && pv.GetContacts() != nil && pv.GetExpires() != nil && pv.GetPAIs() != nil
+		hl.PFlags.Clear(HdrFrom)
+		hl.PFlags.Reset()
+		hl.Reset()
+		pv.Reset()
+		vAssert("reset-empty", hl.N == 0 && hl.PFlags == 0)
+	case 6:
+		var m PSIPMsg
+		m.Init(nil, nil, nil)
+		ParseSIPMsg(buf, 0, &m, vU8()&7)
+		_ = m.Parsed() || m.Err() || m.Request()
+		mt := m.Method()
+		_ = mt.Name()
+		_ = mt.String()
+		m.Reset()
+		vAssert("reset-empty", !m.Parsed() && !m.Err())
+	case 7:
+		var p PTokParam
+		ParseTokenParam(buf, 0, &p, POptFlags(vU8()))
+		_ = p.Empty()
+		p.Reset()
+		var l URIParamsLst
+		var pb [1]URIParam
+		l.Init(pb[:])
+		ParseAllURIParams(buf, 0, &l, POptInputEndF)
+		_ = l.Empty() || l.More()
+		vAssert("pno-bounded", l.PNo() <= 1)
+		l.Reset()
+		var hl URIHdrsLst
+		var hb [1]URIHdr
+		hl.Init(hb[:])
+		ParseAllURIHdrs(buf, 0, &hl, POptInputEndF)
+		_ = hl.Empty() || hl.More()
+		vAssert("hno-bounded", hl.HNo() <= 1)
+		hl.Reset()
+		var up URIParam
+		up.Reset()
+		var uh URIHdr
+		uh.Reset()
+		vAssert("reset-empty", l.Empty() && hl.Empty() && p.Empty())
+	case 8:
+		buf = vURIBuf(0, n)
+		b2 := vURIBuf(0, 2)
+		var u1, u2 PsipURI
+		e1, _ := ParseURI(buf, &u1)
+		e2, _ := ParseURI(b2, &u2)
+		if e1 == NoURIErr && e2 == NoURIErr {
+			f := URICmpFlags(vU8())
+			URICmp(&u1, buf, &u2, b2, f)
+			URICmpShort(&u1, buf, &u2, b2, f)
+		}
+		u1.Long()
+		u1.Short()
+		if e1 == NoURIErr {
+			u1.Flat(buf)
+			no, nl := vU16(), vU16()
+			vAssume(int(no)+int(nl) <= 65535)
+			u1.AdjustOffs(PField{Offs: OffsT(no), Len: OffsT(nl)})
+		}
+		u1.Truncate()
+		u1.Reset()
+	}
+	vReach("end")
+}
